@@ -68,13 +68,32 @@ def run(ctx):
     ex = SeqExec(repo, init, SELF, {p_df: ('frame', p_df)})
     exits = ex.exits(init.body, dict(ex.env0))
     want_df = ('select', ('frame', p_df), ('attrs', ('dom', p_dom)))
+    def same_columns_guard(stmt):
+        """the store sits in the true branch of `tuple(df.columns) == tuple(domain.attrs)`: there the frame IS its own domain-ordered selection"""
+        par = getattr(stmt, '_parent', None)
+        if not (isinstance(par, ast.If) and stmt in par.body and isinstance(par.test, ast.Compare) and len(par.test.ops) == 1
+                and isinstance(par.test.ops[0], ast.Eq)):
+            return False
+
+        def strip(x):
+            while isinstance(x, ast.Call) and isinstance(x.func, ast.Name) and x.func.id in ('list', 'tuple') and len(x.args) == 1:
+                x = x.args[0]
+            return U(x)
+        return {strip(par.test.left), strip(par.test.comparators[0])} == {'%s.columns' % p_df, '%s.attrs' % p_dom}
+    guarded_identity = set()
     for stmt, val in [(s, v) for s, t, v in ex.stores if t == 'self.df']:
+        if val == ('frame', p_df) and same_columns_guard(stmt):
+            guarded_identity.add(id(stmt))
+            ctx.ob('column-order', init, stmt, True, 'the given frame is stored as is where its columns already are the domain\'s attributes in order',
+                   construct='self.df = %s under equal column tuples' % p_df)
+            continue
         ctx.ob('column-order', init, stmt, val == want_df,
                'the stored frame must be the given frame re-selected by name in domain order (`%s.loc[:, %s.attrs]`); stores `%s`'
                % (p_df, p_dom, show(val)))
     if not any(t == 'self.df' for _, t, _ in ex.stores):
         raise AnalysisError('Dataset.__init__ no longer assigns self.df')
-    ok = bool(exits) and all(st.get('self.df') == want_df for _, st in exits)
+    allowed = {want_df} | ({('frame', p_df)} if guarded_identity else set())
+    ok = bool(exits) and all(st.get('self.df') is not None and alternatives(st.get('self.df')) <= allowed for _, st in exits)
     ctx.ob('column-order', init, init.node, ok, 'self.df must hold the domain-ordered selection on every path out of the constructor',
            construct='definite assignment of self.df')
     ok = bool(exits) and all(st.get('self.domain') == ('p', p_dom) for _, st in exits)
